@@ -16,7 +16,7 @@ CLAIMED = {
    "Preconditions met by construction and re-checked; rejected cases counted.", "DESIGN.md §5 C03"),
  "C04": C("exploration", PBT+": reference model of the mapped alignment vs ska map (CLI) and AlnWriter (in-process)",
    "Generated references (short contigs, N, repeats, lower case) and derived samples; every output string must equal the union-of-windows model; refusal iff nothing maps; self-map corollary."+EXPL,
-   "ska map observed only through the CLI; contig names alphanumeric.", "DESIGN.md §5 C04"),
+   "ska map observed only through the CLI; contig names are words without white space (also region-style name:start-end).", "DESIGN.md §5 C04"),
  "C05": C("exploration", PBT+": differential oracle between ska map -f vcf and -f aln",
    "The VCF must contain a record exactly where the alignment differs from the reference, with genotypes decoding to the aligned characters."+EXPL,
    "The alignment itself is checked by C04.", "DESIGN.md §5 C05"),
@@ -24,8 +24,8 @@ CLAIMED = {
    "All 4x2x2x2 flag combinations and noise-free thresholds over arbitrary tables; emitted column multiset must equal the model's; a stricter setting yields a sub-multiset."+EXPL,
    "Tables injected through the public API; thresholds chosen so ceil(f*n) is immune to floating point noise.", "DESIGN.md §5 C06"),
  "C07": C("exploration", PBT+": model + differential (merge vs joint build) through the CLI, refusal cases",
-   "Partitions, argument orders and nesting generated; merged file must equal the model table and a joint build; incompatible inputs must be refused without output."+EXPL,
-   "Distinct sample names assumed.", "DESIGN.md §5 C07"),
+   "Partitions, argument orders, nesting, 9-20 inputs in one call, inputs of one base name in two directories and .skf files written by older releases (the repository's own test files) generated; merged file must equal the model table and a joint build; incompatible inputs must be refused without output."+EXPL,
+   "Names are labels (shared names allowed; columns are positional).", "DESIGN.md §5 C07"),
  "C08": C("exploration", PBT+": model + differential (delete vs build of the rest) through the CLI, refusal cases",
    "Subsets, both name routes, in place / -o; result must equal the model and a build of the remaining samples; refusals leave the file byte-identical."+EXPL,
    "Names file = one name per line.", "DESIGN.md §5 C08"),
@@ -57,10 +57,10 @@ CLAIMED = {
    "Planted isolated SNPs must all be called (reference-free) with the true alleles; with a reference every call must be true and consistently written; arbitrary inputs must give well-formed output."+EXPL,
    "Completeness only inside the isolation preconditions (unique (k-1)-mers, >= 2k apart, >= k from the ends). One recorded finding (incomplete column when -m allows missing samples) is printed as KNOWN-FINDING.", "DESIGN.md §5 C17, §4 F13"),
  "C18": C("exploration", PBT+": constructed isolated-indel genome sets through ska build/lo; per-record validity predicate by sequence containment; aggregate recall",
-   "Every indel record must describe a real difference with correct genotypes and match one planted indel once; recall >= 90% in aggregate."+EXPL,
+   "Every indel record must describe a real difference with correct genotypes (a sample holding both forms: 0/1 or missing) and match one planted indel once; recall >= 90% in aggregate and within every stratum of the generated population (strata of 5-149 indels by an exact binomial tail)."+EXPL,
    "Preconditions by construction; recall aggregated over the run.", "DESIGN.md §5 C18"),
  "C19": C("fault_enumeration", "fault enumeration: every prefix and every single-bit flip of generated valid .skf files (small files always complete; multi-frame files complete in the thorough tier, boundary/header-complete + seeded sample in quick) through the CLI's load dispatch, plus CLI sample",
-   "Oracle 'rejected or identical content' on four files (64/128-bit, single/multi-frame, compressed/uncompressed frames); CLI subcommands on rejected files must fail, leave the input untouched and write nothing.",
+   "Oracle 'rejected or identical content' on five files (64/128-bit, single/multi-frame, compressed/uncompressed frames, one of 1.5 MiB in 25 frames; backup-like siblings holding another valid table lie next to every damaged file); CLI subcommands on rejected files must fail, leave the input untouched and write nothing.",
    "Fault model = truncation and single-bit flips only; files generated by the harness through the public API.", "DESIGN.md §5 C19"),
  "C20": C("exploration", PBT+": harness re-implementation of the mixture likelihood/gradient/cutoff vs hooked functions; simulated read pairs vs model histogram and CLI table",
    "Likelihood, analytic gradient (also vs finite differences) and cutoff at generated parameter points; exact histogram, cutoff, labels and densities for simulated read sets."+EXPL,
